@@ -247,6 +247,14 @@ def run(chk):
             ev("str", "generate_secret", L=62, n=len(s), abc=[ord(c) for c in abc62], digits=digits_of(v, 62, len(s)), out=[ord(c) for c in s],
                requests=reqs_json(sc.requests[:1]))
             ev("minlen", "generate_secret", L=62, n=len(s), entropy=entropy)
+    # generate_secret over alphabets of every kind of size (the length must carry the requested entropy - MinLenOk - for any alphabet)
+    import string
+    for cs in (string.digits, "abc", "ab", "abcde", string.ascii_lowercase, string.hexdigits[:16], "".join(chr(c) for c in range(33, 127))):
+        for entropy in (1, 24, 64, 128, 256):
+            with Script(lambda k, b: 0) as sc:
+                s_ = generate_secret(entropy=entropy, charset=cs)
+            ev("minlen", f"generate_secret/{len(cs)}", L=len(cs), n=len(s_), entropy=entropy)
+            ev("str", f"generate_secret/{len(cs)}", L=len(cs), n=len(s_), abc=[ord(c) for c in cs], digits=[0] * len(s_), out=[ord(c) for c in s_], requests=reqs_json(sc.requests[:1]))
     for charset in ("ascii_62", "ascii_50", "ascii_72", "hex"):
         chars = pwd.default_charsets[charset]
         for entropy in (28, 36, 48, 56, 60, 128):
@@ -283,6 +291,23 @@ def run(chk):
     if len(s) != 12 or picks[:12] != [62] * 12 or len(s2) * math.log2(62) < 128 or (len(s2) - 1) * math.log2(62) >= 128:
         chk.violation("libpass:generate_salt", "libpass salt generator does not draw one uniform symbol per position / wrong length", {"s": s, "s2": s2})
     ev("minlen", "libpass.generate_salt_by_entropy", L=62, n=len(s2), entropy=128)
+    # libpass hashers: the configured salt strength is the one used
+    try:
+        from libpass.hashers.pbkdf2 import PBKDF2SHA256Handler, PBKDF2SHA512Handler
+        from libpass.inspect.pbkdf2 import inspect_pbkdf2_hash, PBKDF2SHA256CryptInfo, PBKDF2SHA512CryptInfo
+        import base64 as _b64
+        for cls, info in ((PBKDF2SHA256Handler, PBKDF2SHA256CryptInfo), (PBKDF2SHA512Handler, PBKDF2SHA512CryptInfo)):
+            for bits in (64, 128, 256, 512):
+                hs = cls(rounds=1, salt_entropy_bits=bits).hash("pw")
+                inf = inspect_pbkdf2_hash(hs, info)
+                raw = inf.salt if isinstance(inf.salt, (bytes, str)) else b""
+                # the salt is stored base64-coded: decode it back to the generated text
+                txt = hs.split("$")[3]
+                salt_text = _b64.b64decode(txt.replace(".", "+") + "=" * (-len(txt) % 4))
+                ev("minlen", f"libpass.{cls.__name__}", L=62, n=len(salt_text), entropy=bits)
+    except ImportError as ex:
+        chk.uncovered.append(f"libpass pbkdf2 hashers: {ex}")
+    sticky_salts(chk)
 
     # --- TLC validates all events --------------------------------------------------------------------
     wd = VERIF / "out" / "work" / "C06_trace_in"
@@ -308,6 +333,46 @@ def run(chk):
                       {"event": {k: (v if not isinstance(v, list) or len(v) < 70 else v[:70]) for k, v in e.items()}, "expected": b["expected"]})
     chk.assumptions += ["the random source itself (SystemRandom / secrets) is uniform; no statistics on live output are used",
                         "int <-> digit-vector conversion of the source value is done by the harness"]
+
+
+def sticky_salts(chk):
+    """a salt supplied for ONE call never sticks: the next call without a salt draws a fresh one from the random source
+    (histories: pinned call, then automatic ones) - hashers through using(), and the Django hasher wrappers through encode()"""
+    import passlib.hash as H
+
+    def drawn(make_auto, parse_salt, pinned, label):
+        outs = []
+        for v in (3, 11):
+            with Script(lambda k, b, v=v: (v * 2654435761) % (b if k == "range" else (1 << b))) as sc:
+                hs = make_auto()
+            outs.append((parse_salt(hs), len(sc.requests)))
+        chk.evaluations += 2
+        chk.count(("sticky", label))
+        chk.action("sticky-salt")
+        salts = [o[0] for o in outs]
+        if pinned in salts or salts[0] == salts[1] or any(o[1] == 0 for o in outs):
+            chk.violation(f"sticky-salt:{label}", f"{label}: after a call with the explicit salt {pinned!r}, calls without a salt produced salts {salts} using {[o[1] for o in outs]} random requests",
+                          {"path": label, "pinned": repr(pinned), "salts": [repr(x) for x in salts]})
+    for h, pinned, kw in ((H.sha256_crypt, "abcdabcdabcdabcd", dict(rounds=1000)), (H.pbkdf2_sha256, b"0123456789abcdef", dict(rounds=1)), (H.md5_crypt, "abcdefgh", {})):
+        h.using(salt=pinned, **kw).hash("pw")
+        drawn(lambda: h.using(**kw).hash("pw"), lambda s, h=h: h.from_string(s).salt, pinned, f"{h.name}.using(salt=..) then using()")
+    try:
+        from django.conf import settings
+        if not settings.configured:
+            settings.configure()
+        import django
+        django.setup()
+        from passlib.ext.django.utils import DjangoTranslator
+    except Exception as ex:
+        chk.uncovered.append(f"Django wrapper salts: {type(ex).__name__}: {ex}"[:120])
+        return
+    for h, pinned, rounds in ((H.sha256_crypt, "abcdabcdabcdabcd", 1234), (H.pbkdf2_sha256, b"0123456789abcdef", 7)):
+        hasher = DjangoTranslator().passlib_to_django(h.name)
+        first = hasher.encode("secret", pinned, rounds=rounds)
+        if h.from_string(first).salt != pinned:
+            chk.violation(f"django-wrapper:{h.name}:explicit-salt", "the Django wrapper does not honour an explicit salt", {"hash": first})
+        drawn(lambda: hasher.encode("other", rounds=rounds), lambda s, h=h: h.from_string(s).salt, pinned, f"django wrapper of {h.name}: encode(pw, salt) then encode(pw)")
+        drawn(lambda: hasher.encode("other", hasher.salt(), rounds=rounds), lambda s, h=h: h.from_string(s).salt, pinned, f"django wrapper of {h.name}: encode(pw, salt) then encode(pw, hasher.salt())")
 
 
 def policy(chk, salted, quick):
